@@ -203,7 +203,7 @@ def session_snapshot(cache):
         objs[repr(o)] = (o._status_, o._wbits_, o._save_pos_, tuple(sorted(vals.items())))
     idx = {}
     for key, d in cache.indexes.items():
-        kname = key.name if hasattr(key, 'name') else tuple(a.name for a in key)
+        kname = (key.entity.__name__, key.name) if hasattr(key, 'name') else tuple((a.entity.__name__, a.name) for a in key)     # (entity, attribute): pk indexes of different entities are different maps
         content = tuple(sorted((repr(k), repr(v)) for k, v in d.items()))
         if content: idx[repr(kname)] = content
     mc = {a.name: tuple(sorted(repr(o) for o in s)) for a, s in cache.modified_collections.items() if s}
